@@ -59,7 +59,12 @@ func (x *Exec) eval(e ast.Expr, st *State) Term {
 		return x.evalCompositeLit(e, st, false)
 	case *ast.TypeAssertExpr:
 		v, ok := x.evalTypeAssert(e, st)
-		x.safety(st, "type-assert", ok, "type assertion "+x.exprString(e), e.Pos())
+		if x.contract != nil && x.contract.Safety["type-assert-may-panic"] {
+			// the contract accepts a panic here (a value of the wrong dynamic type was configured by the caller)
+			st.assume(ok)
+		} else {
+			x.safety(st, "type-assert", ok, "type assertion "+x.exprString(e), e.Pos())
+		}
 		return v
 	case *ast.FuncLit:
 		return x.evalFuncLit(e, st)
@@ -270,6 +275,10 @@ func (x *Exec) addReadFacts(st *State, v Term, t types.Type) {
 	case *types.Slice:
 		for _, f := range x.typeFacts(v, t) {
 			st.assume(f)
+		}
+		if len(v.S) < 200 {
+			a := x.sliceArr(v)
+			st.assume(and(mk(SBool, "<=", intLit(0), a), mk(SBool, "<", a, st.alloc)))
 		}
 	}
 }
@@ -657,11 +666,11 @@ func (x *Exec) evalSliceExpr(e *ast.SliceExpr, st *State) Term {
 		x.safety(st, "slice-bounds", and(mk(SBool, "<=", intLit(0), lo), mk(SBool, "<=", lo, hi), mk(SBool, "<=", hi, x.sliceLen(s))), "slice "+x.exprString(e), e.Pos())
 		elem := x.elemOfSliceSort(s.Sort)
 		if lo.S == "0" {
-			return x.mkSlice(elem, x.sliceElemsOf(s), hi, x.sliceNonNil(s))
+			return x.mkSlice(elem, x.sliceElemsOf(s), hi, x.sliceNonNil(s), x.sliceArr(s))
 		}
 		arr := x.ctx.Fresh("subslice", arraySort(SInt, elem))
 		st.define(Term{fmt.Sprintf("(forall ((k Int)) (! (= (select %s k) (select %s (+ k %s))) :pattern ((select %s k))))", arr.S, x.sliceElemsOf(s).S, lo.S, arr.S), SBool})
-		return x.mkSlice(elem, arr, mk(SInt, "-", hi, lo), x.sliceNonNil(s))
+		return x.mkSlice(elem, arr, mk(SInt, "-", hi, lo), x.sliceNonNil(s), x.sliceArr(s))
 	}
 	panic(unsupported("slice expression on " + bt.String()))
 }
@@ -721,7 +730,7 @@ func (x *Exec) evalCompositeLit(e *ast.CompositeLit, st *State, addr bool) Term 
 		if addr {
 			panic(unsupported("address of slice literal"))
 		}
-		return x.mkSlice(elem, arr, intLit(int64(n)), tTrue)
+		return x.mkSlice(elem, arr, intLit(int64(n)), tTrue, x.allocRef(st, "array"))
 	case *types.Map:
 		r := x.newMap(st, u)
 		for _, el := range e.Elts {
@@ -787,6 +796,8 @@ func (x *Exec) assertTo(st *State, v Term, to types.Type) (Term, Term) {
 	}
 	ok := eq(mk(SInt, "dyn", v), x.tagOf(to))
 	val := x.unbox(v, to)
+	// an interface value of dynamic type T is the boxing of its T value
+	st.assume(implies(ok, eq(x.ctx.App("box_"+mangle(typeTagString(to)), SInt, val), v)))
 	return val, ok
 }
 
